@@ -193,6 +193,39 @@ def check_malformed(case):
     raise Violation(f"inconsistent shapes orientations {so} / fractions {sf} were accepted")
 
 
+def check_zero_many_draws(case):
+    """4 snapshots x 1e6 samples of a texture with zero-volume grains: 4e6 draws per
+    evaluation, so that a draw landing exactly on the lower end of the volume axis (where the
+    zero-volume grains sit) would be seen if it were likelier than double precision makes it."""
+    M = case["M"]
+    rng = np.random.default_rng(case["seed_tex"])
+    A = np.stack([gen._random_rotations(rng, M) for _ in range(4)])
+    f = rng.uniform(0.1, 1.0, size=(4, M))
+    nz = max(1, min(M - 1, case["n_zero"]))
+    for i in range(4):
+        f[i, rng.permutation(M)[:nz]] = 0.0
+    f /= f.sum(axis=1, keepdims=True)
+    n = 1_000_000
+    oA, of = sut(S.resample_orientations, A, f, n_samples=n, seed=case["seed"])
+    require(oA.shape == (4, n, 3, 3) and of.shape == (4, n), f"output shapes {oA.shape}/{of.shape}")
+    for i in range(4):
+        bad = int(np.count_nonzero(of[i] == 0.0))
+        require(bad == 0, f"snapshot {i}: a zero-volume grain was drawn {bad} time(s) in {n} samples")
+        pool = set(zip(A[i, :, 0, 0].tolist(), f[i].tolist()))
+        got = set(zip(oA[i, :, 0, 0].tolist(), of[i].tolist()))
+        require(got <= pool, f"snapshot {i}: a resampled (orientation, volume) pair is not an input pair")
+        # every grain with volume is drawn in proportion (z bound 7)
+        for g in range(M):
+            if f[i, g] > 0:
+                c = int(np.count_nonzero(of[i] == f[i, g]))
+                dup = int(np.count_nonzero(f[i] == f[i, g]))
+                p = f[i, g] * dup
+                z = abs(c - n * p) / max(math.sqrt(n * p * (1 - p)), 1.0)
+                require(z <= 7.0, f"snapshot {i}: grain with volume {f[i, g]:.6f} drawn {c} of {n} times (z = {z:.1f})", z)
+    del oA, of
+    return {"nontrivial": True, "labels": [f"M{M}", f"zeros{nz}"], "residual": 0.0}
+
+
 def shape_case():
     """Shape pairs from a grammar instead of a list: ranks 0..5 with dimensions biased towards
     3 (so that grain counts and snapshot counts collide with the trailing 3x3), plus exact
@@ -241,6 +274,13 @@ def check_shapes(case):
 
 
 ORACLES = [
+    Oracle(
+        "zero_volume_many_draws",
+        st.fixed_dictionaries({"M": st.integers(2, 6), "n_zero": st.integers(1, 4), "seed_tex": gen.small_seed, "seed": st.integers(0, 2**32 - 1)}),
+        check_zero_many_draws,
+        quick=16,
+        thorough=64,
+    ),
     Oracle(
         "generated_shapes",
         shape_case(),
